@@ -42,14 +42,14 @@ VARIABLES arr, cacheAt, ref, view, next, hist
 avars == <<seen, cur, res, memo, held, arr, cacheAt, ref, view, next, hist>>
 
 \* ---------------------------------------------------------------- the one type
-FldA == [nm |-> "a", k |-> "strs", ptr |-> FALSE, opt |-> "plain", dep |-> "",
+FldA == [nm |-> "a", k |-> "strs", u |-> 2, ptr |-> FALSE, opt |-> "plain", dep |-> "",
          hd |-> TRUE, dn |-> 2, ds |-> "p,q",
          hr |-> FALSE, lo |-> 0, hi |-> 0, li |-> FALSE, ri |-> FALSE, hlo |-> FALSE, hhi |-> FALSE,
          ho |-> FALSE, on |-> <<>>, os |-> <<>>, osyn |-> "bar", fs |-> FALSE]
 Inputs == <<VAbsent, VList(2, "x,y")>>            \* input 1: nothing supplied, input 2: [x,y]
 Words(j) == IF j = 1 THEN <<"p", "q">> ELSE <<"x", "y">>   \* what input j must leave in the target
 VecA(j) == [src |-> "json", wrap |-> "flat", wabs |-> FALSE, f |-> <<FldA>>, in |-> <<Inputs[j]>>,
-            xk |-> <<>>, ksp |-> "lower", mk |-> "k"]
+            xk |-> <<>>, xv |-> <<>>, ksp |-> "lower", mk |-> "k"]
 
 Join(s) == IF Len(s) = 0 THEN "" ELSE IF Len(s) = 1 THEN s[1] ELSE s[1] \o "," \o s[2]
 ListVal(s) == VList(Len(s), Join(s))
